@@ -212,8 +212,8 @@ def run(chk):
         if r.get('req'):
             ans = answers[r['k']]
             if ans.startswith('HIST bad-request'):
-                raise common.InfraError('driver rejected a HIST request: ' + ans)
-            if ans != 'HIST ok':
+                chk.mismatch('what the implementation produced cannot be expressed as a model request (driver: bad-request)', ans[:200], replay)
+            elif ans != 'HIST ok':
                 for f in ans[5:].split('; '):
                     chk.mismatch('stage machine model = implementation', f[:300], replay)
     chk.extra.update({'states': states, 'transitions': transitions, 'traces_validated_against_impl': direct})
